@@ -97,6 +97,93 @@ func (c *c11Ctx) checkPartial(v *vfile, f *fit.File, k int, where string, rep fu
 	r.hist("partial_judged_against_reference")
 }
 
+// parseStreamBytes recovers the abstract syntax (record list) of a valid frame,
+// so that record boundaries and the reference semantics are available for
+// corpus files too.  Returns nil when the bytes do not parse as whole records.
+func parseStreamBytes(data []byte) *stream {
+	hs, ds, ok := parseFrame(data)
+	if !ok || hs+ds+2 != len(data) {
+		return nil
+	}
+	s := &stream{HdrSize: byte(hs), Proto: data[1], Profile: uint16(data[2]) | uint16(data[3])<<8, HdrCRC: "ok"}
+	if hs == 14 && data[12] == 0 && data[13] == 0 {
+		s.HdrCRC = "zero"
+	}
+	body := data[hs : hs+ds]
+	type dinfo struct{ pay, dev int }
+	defs := map[byte]dinfo{}
+	i := 0
+	for i < len(body) {
+		b := body[i]
+		switch {
+		case b&0x80 != 0: // compressed-timestamp data record
+			l := (b >> 5) & 3
+			d, ok := defs[l]
+			if !ok || i+1+d.pay+d.dev > len(body) {
+				return nil
+			}
+			s.Records = append(s.Records, record{Kind: "Z", Local: l, Offset: b & 0x1F, Pay: body[i+1 : i+1+d.pay], DevPay: body[i+1+d.pay : i+1+d.pay+d.dev]})
+			i += 1 + d.pay + d.dev
+		case b&0x40 != 0:
+			if i+6 > len(body) {
+				return nil
+			}
+			r := record{Kind: "D", Local: b & 0x0F, Arch: body[i+2], DevFlg: b&0x20 != 0, HdrOr: b & 0x10}
+			if body[i+1] != 0 {
+				return nil // reserved byte: the serializer writes 0
+			}
+			if r.Arch == 1 {
+				r.Gmn = uint16(body[i+3])<<8 | uint16(body[i+4])
+			} else {
+				r.Gmn = uint16(body[i+3]) | uint16(body[i+4])<<8
+			}
+			nf := int(body[i+5])
+			j := i + 6
+			if j+3*nf > len(body) {
+				return nil
+			}
+			var di dinfo
+			for k := 0; k < nf; k++ {
+				r.Fields = append(r.Fields, fieldDefS{body[j], body[j+1], body[j+2]})
+				di.pay += int(body[j+1])
+				j += 3
+			}
+			if r.DevFlg {
+				if j >= len(body) {
+					return nil
+				}
+				nd := int(body[j])
+				j++
+				if j+3*nd > len(body) {
+					return nil
+				}
+				for k := 0; k < nd; k++ {
+					r.Devs = append(r.Devs, devDefS{body[j], body[j+1], body[j+2]})
+					di.dev += int(body[j+1])
+					j += 3
+				}
+			}
+			defs[r.Local] = di
+			s.Records = append(s.Records, r)
+			i = j
+		default:
+			l := b & 0x0F
+			d, ok := defs[l]
+			if !ok || i+1+d.pay+d.dev > len(body) {
+				return nil
+			}
+			s.Records = append(s.Records, record{Kind: "M", Local: l, HdrOr: b & 0x30, Pay: body[i+1 : i+1+d.pay], DevPay: body[i+1+d.pay : i+1+d.pay+d.dev]})
+			i += 1 + d.pay + d.dev
+		}
+	}
+	// the recovered syntax must serialise back to the same bytes
+	if string(s.dataBytes()) != string(body) {
+		return nil
+	}
+	s.fillHex()
+	return s
+}
+
 var c11Chunkings = []string{"whole", "1", "random"}
 
 // bareEOF: the error text ends in the bare io.EOF text, the conventional
@@ -337,13 +424,19 @@ func runC11(args []string) int {
 	cfg.illFormed = 0
 	cfg.maxRecords = 5
 	var pool []*vfile
-	nPool := sizes(o.tier, o.boost, 40, 4000)
+	nPool := sizes(o.tier, o.boost, 22, 4000)
 	for len(pool) < nPool {
-		cfg.maxRecords = 1 + rg.intn(6)
+		cfg.maxRecords = 2 + rg.intn(9)
 		s := genStream(rg, &cfg, st)
 		data := s.bytes()
-		if len(data) > 160 && o.tier != "thorough" {
-			continue
+		nData := 0
+		for _, rec := range s.Records {
+			if rec.Kind != "D" {
+				nData++
+			}
+		}
+		if (len(data) > 190 || (nData < 3 && len(pool)%5 != 0)) && o.tier != "thorough" {
+			continue // small, but with data records beyond the file_id message
 		}
 		v, _, _, err := soloDecode(w, data, "generated", s, true)
 		if err != nil {
@@ -371,7 +464,7 @@ func runC11(args []string) int {
 			if len(fr) > maxCorpus {
 				continue
 			}
-			v, _, _, err := soloDecode(w, fr, fmt.Sprintf("%s#%d", rel, i), nil, true)
+			v, _, _, err := soloDecode(w, fr, fmt.Sprintf("%s#%d", rel, i), parseStreamBytes(fr), true)
 			if err != nil {
 				fmt.Println("driver:", err)
 				return 2
@@ -410,14 +503,14 @@ func runC11(args []string) int {
 	}
 	// chains of 2-3
 	all := append(append([]*vfile{}, pool...), corpus...)
-	nChains := sizes(o.tier, o.boost, 14, 3000)
+	nChains := sizes(o.tier, o.boost, 9, 3000)
 	for i := 0; i < nChains; i++ {
 		n := 2 + rg.intn(2)
 		var fs []*vfile
 		total := 0
 		for len(fs) < n {
 			v := all[rg.intn(len(all))]
-			if total+len(v.data) > 420 && o.tier != "thorough" {
+			if total+len(v.data) > 330 && o.tier != "thorough" {
 				v = pool[rg.intn(len(pool))]
 			}
 			fs = append(fs, v)
